@@ -1132,7 +1132,7 @@ fn l_checks() -> Vec<Box<dyn Check>> {
             "a datagram is excused only if every delivery attempt for it hit an injected hard error on the client socket",
             "the 3-line instant-forward task is mirrored: what it would send is counted as delivered",
         ],
-        probes: &["c09.relayable_datagram", "c09.internal_datagram", "c09.runt_datagram", "c09.unknown_type_relayed", "c09.no_client_yet", "c09.instant_forward_path", "c09.proof_by_earned_ack", "c09.proof_by_keepalive"],
+        probes: &["c09.relayable_datagram", "c09.internal_datagram", "c09.runt_datagram", "c09.unknown_type_relayed", "c09.no_client_yet", "c09.instant_forward_path", "c09.fast_path_hard_error", "c09.proof_by_earned_ack", "c09.proof_by_keepalive"],
     }),
     Box::new(LCheck {
         id: "C14",
